@@ -1120,6 +1120,9 @@ def c18_stack(tier):
     jobs.append(("x-union", 600000, False))
     jobs.append(("x-bars", 300000, False))
     jobs.append(("x-holes", 100000, True))
+    # one edge divided hundreds of thousands of times: chains through the pieces of one edge (seed C18-7)
+    jobs.append(("x-saw", 300000, True))
+    jobs.append(("x-saw", 300000, False))
     from concurrent.futures import ThreadPoolExecutor
     def run(j):
         name, n, thr = j
@@ -1169,6 +1172,9 @@ def c03_large_children(tier):
     sizes = (20000, 100000) if tier == "quick" else (10000, 20000, 50000, 100000, 200000, 500000)
     jobs = [(sc, n, thr) for sc in ("x-sweep", "x-sweepdesc", "x-union", "x-bars") for n in sizes for thr in (False, True)]
     jobs.append(("x-holes", 100000, True))
+    jobs.append(("x-saw", 300000, True))
+    # the same input in two orientations must take comparable time (a run that takes hours is a hang)
+    jobs += [("x-mirrortime", n, False) for n in ((40000, 100000) if tier == "quick" else (40000, 100000, 250000))]
     from concurrent.futures import ThreadPoolExecutor
     def run(j):
         sc, n, thr = j
@@ -1177,8 +1183,10 @@ def c03_large_children(tier):
         for (sc, n, thr), (rc, out, err) in ex.map(run, jobs):
             rows.append({"scenario": sc, "teeth": n, "thread_2MiB": thr, "exit": rc})
             if rc != 0 or "DONE" not in out:
+                msg = [l for l in out.splitlines() if l.startswith("LARGE-CHECK")]
                 findings.append(_F("O", "large input: boolean operation %s with %d teeth%s ended with exit status %s (%s)" % (
-                    sc, n, " on a 2 MiB thread" if thr else "", rc, err.strip()[-120:]), scenario=["stack", sc, str(n)] + (["thread"] if thr else [])))
+                    sc, n, " on a 2 MiB thread" if thr else "", rc, msg[0] if msg else err.strip()[-120:]),
+                    scenario=["stack", sc, str(n)] + (["thread"] if thr else [])))
     findings.extend(_dev_stack_jobs([]))
     return findings, {"large_children": rows}
 
@@ -1190,7 +1198,7 @@ def large_result_children(tier):
     findings = []
     rows = []
     sizes = (20000, 40000) if tier == "quick" else (20000, 40000, 100000, 300000)
-    jobs = [(sc, n) for sc in ("x-union", "x-bars", "x-holes") for n in sizes if not (sc == "x-holes" and n > 40000)]
+    jobs = [(sc, n) for sc in ("x-union", "x-bars", "x-holes", "x-frames") for n in sizes if not (sc in ("x-holes", "x-frames") and n > 40000)]
     from concurrent.futures import ThreadPoolExecutor
     def run(j):
         sc, n = j
